@@ -854,7 +854,11 @@ class PDFDocument:
 
     def _getobj_parse(self, pos: int, objid: int) -> object:
         assert self._parser is not None
-        self._parser.seek(pos)
+        try:
+            self._parser.seek(pos)
+        except (OverflowError, ValueError, OSError):
+            # e.g. an xref stream entry whose offset does not fit a file offset
+            raise PDFSyntaxError(f"Invalid object position: {pos}")
         (_, objid1) = self._parser.nexttoken()  # objid
         (_, genno) = self._parser.nexttoken()  # genno
         (_, kwd) = self._parser.nexttoken()
